@@ -22,6 +22,8 @@ impl SpanLine {
         span_line_epoch: usize,
         collect_token: Option<CollectToken>,
     ) -> Self {
+        #[cfg(all(fastrace_verif, not(test)))]
+        let capacity = crate::verif::queue_capacity(capacity);
         let is_sampled = match &collect_token {
             Some(token) => token.iter().any(|item| item.is_sampled),
             None => true,
